@@ -32,46 +32,6 @@ ASSUME = [
 ]
 
 
-def split_traces(path, parts, outdir):
-    """Split an ndjson trace file into `parts` files at reset boundaries."""
-    chunks, cur = [], []
-    with open(path) as f:
-        for ln in f:
-            if ln.startswith('{"op":"reset"') and cur:
-                chunks.append(cur)
-                cur = []
-            cur.append(ln)
-    if cur:
-        chunks.append(cur)
-    parts = max(1, min(parts, len(chunks)))
-    files = []
-    start = {}
-    per = (len(chunks) + parts - 1) // parts
-    for i in range(parts):
-        sel = chunks[i * per:(i + 1) * per]
-        if not sel:
-            continue
-        p = os.path.join(outdir, "part%02d.ndjson" % i)
-        n = 1
-        with open(p, "w") as f:
-            for c in sel:
-                start[(p, json.loads(c[0])["cfg"]["id"])] = n
-                f.writelines(c)
-                n += len(c)
-        files.append(p)
-    return files, chunks, start
-
-
-def validate_parallel(ctx, module, cfg, trace, parts):
-    files, chunks, start = split_traces(trace, parts, ctx.sub("parts"))
-    reports = []
-    with ThreadPoolExecutor(max_workers=len(files)) as ex:
-        futs = [ex.submit(validate_trace, ctx, module, cfg, f, "val%02d" % i, 3) for i, f in enumerate(files)]
-        for f in futs:
-            reports.append(f.result())
-    return files, chunks, start, reports
-
-
 def op_summary(lines):
     """Abstract view of one history, for samples and for counting distinct histories."""
     ops = []
@@ -137,42 +97,16 @@ def check(ctx):
         for v in rep["viol"]:
             v["file"] = f
             viols.append(v)
-    mine = [v for v in viols if v["p"] == prop]
-    others = sorted(set(v["p"] for v in viols if v["p"] != prop))
-    if others:
-        log("  note: the same executions also violate %s (reported by those properties' checks)" % ", ".join(others))
+    by_id = {json.loads(c[0])["cfg"]["id"]: c for c in chunks}
 
-    # 4. classify
-    by_id = {}
-    for c in chunks:
-        by_id[json.loads(c[0])["cfg"]["id"]] = c
-    new, hit, known = split_known(prop, mine, lambda v: v["why"])
-    rc = 0
-    for f in known:
-        if f["id"] in hit:
-            log("KNOWN-FINDING: property=%s %s (%d occurrences this run)" % (prop, f["what"], len(hit[f["id"]])))
-        else:
-            log("KNOWN-FINDING: property=%s %s (listed; not reproduced by this run)" % (prop, f["what"]))
-    seen_why = {}
-    for v in sorted(new, key=lambda v: (v["tr"], v["l"])):
-        if seen_why.get(v["why"], 0) >= 3:
-            seen_why[v["why"]] += 1
-            continue
-        seen_why[v["why"]] = seen_why.get(v["why"], 0) + 1
-        lines = by_id[v["tr"]]
+    def describe(lines, upto, v):
         cfg, ops = op_summary(lines)
-        upto = v["l"] - start[(v["file"], v["tr"])] + 1   # index of the failing event inside its history
-        path = write_replay(ctx, "tr%d" % v["tr"], {"trace.ndjson": "".join(lines[:upto])},
-                            dict(property=prop, why=v["why"], handle=v["h"], config=cfg, ops=ops[:max(0, upto - 1)],
-                                 failing_event=json.loads(lines[upto - 1]) if 0 < upto <= len(lines) else None,
-                                 how="./check %s --seed %d reproduces; trace.ndjson is the recorded execution up to the failing call, "
-                                     "validate it with specs/TraceMast.tla" % (prop, ctx.seed)))
-        log("VIOLATION property=%s replay=%s" % (prop, path))
-        log("  %s  [%s]  after %s" % (v["why"], cfg, " ".join(ops[max(0, upto - 9):max(0, upto - 1)])))
-        rc = 1
-    extra = sum(c for c in seen_why.values()) - sum(min(c, 3) for c in seen_why.values())
-    if extra > 0:
-        log("  (+%d further occurrences of the same kinds)" % extra)
+        info = dict(handle=v["h"], config=cfg, ops=ops[:max(0, upto - 1)],
+                    failing_event=json.loads(lines[upto - 1]) if 0 < upto <= len(lines) else None,
+                    validate_with="specs/TraceMast.tla")
+        return "[%s]  after %s" % (cfg, " ".join(ops[max(0, upto - 9):max(0, upto - 1)])), info, "".join(lines[:upto])
+
+    rc, nnew = report_violations(ctx, viols, start, by_id, describe)
 
     # 5. evidence
     distinct = len(set(hashlib.sha1("".join(c[1:]).encode()).hexdigest() for c in chunks))
@@ -190,6 +124,6 @@ def check(ctx):
                design_level=mc, exhaustive=False,
                rule="design level: every reachable state of the listed configurations; implementation level: random histories "
                     "(profile %s) over key/value codecs x branch factors x node formats x cache modes, every event validated by TLC" % PROFILE[prop])
-    write_evidence(ctx, LEVEL, cov, ASSUME, len(new))
-    log("  %d histories (%d distinct), %d events validated, %d violations of %s" % (len(chunks), distinct, stat.get("events", 0), len(new), prop))
+    write_evidence(ctx, LEVEL, cov, ASSUME, nnew)
+    log("  %d histories (%d distinct), %d events validated, %d violations of %s" % (len(chunks), distinct, stat.get("events", 0), nnew, prop))
     return rc
